@@ -73,13 +73,18 @@ def worker(job):
         for i in range(job["n"]):
             if i % 200 == 0:
                 prog.mark({"cfg": cfg.key(), "inst": inst, "i": i})
-            if i in (job["n"] // 3, job["n"] // 3 + 7):
-                # a request that does not fit the buffer (SnmpEncodeError, nothing sent): the key installation must survive it
-                refused_at.append(len(sent_oids))
+            if i in (job["n"] // 3, job["n"] // 3 + 7) or (i % 97 == 41 and i > 10):
+                # a request that does not fit the buffer (SnmpEncodeError, nothing sent): the key installation must survive it.
+                # Sizes sweep the boundary too: requests whose scoped PDU still fits the cipher's buffer while the whole
+                # message no longer fits the datagram buffer are refused at a later point than grossly oversized ones.
+                nn = 700 if i in (job["n"] // 3, job["n"] // 3 + 7) else rng.randrange(150, 200)
                 try:
-                    sock.send_get_many(["1.3.6.1.4.1.%d.%d.%d.%d.%d.%d" % (k, k, k, k, k, k) for k in range(700)])
-                    bad("oversize", "an oversized request was accepted")
+                    sock.send_get_many(["1.3.6.1.4.1.%d.%d.%d.%d.%d.%d" % (k, k, k, k, k, k) for k in range(200, 200 + nn)])
+                    if nn == 700:
+                        bad("oversize", "an oversized request was accepted")
+                    sent_oids.append(None)   # it fitted: an ordinary message of this installation
                 except Exception as e:
+                    refused_at.append(len(sent_oids))
                     if "EncodeError" not in type(e).__name__:
                         bad("oversize", "an oversized request raised %r" % e)
             if i in (2 * job["n"] // 3, 2 * job["n"] // 3 + 5):
